@@ -1,7 +1,15 @@
 import Rp2.Gen.Consts
+import Rp2.Model.Ini
 namespace Rp2.Tables
 open Rp2.Gen
 /-- the decimal context and quantisation constants the model hard-codes (`rnd 31`, `quant 13`, `quant 10`, `quant 11`) -/
 theorem consts_agree : prec = 31 ∧ rounding = "ROUND_HALF_EVEN" ∧ floatTrap = true ∧ cryptoDecimals = 13 ∧ balanceDecimals = 10 ∧
     tableEnd = "TABLE END" ∧ parserFormatSpecs = ["f'.11f'"] := by decide
+/-- the column names the configuration model allows in each header section are those of `_HEADER_COLUMNS`, and the earliest year of an
+    `[accounting_methods]` entry is `MIN_DATE.year` -/
+theorem header_columns_agree :
+    (headerColumns.map (·.1) == ["in_header", "intra_header", "out_header"] &&
+     headerColumns.all (fun p =>
+       let allowed := if p.1 == "in_header" then Ini.inAllowed else if p.1 == "out_header" then Ini.outAllowed else Ini.intraAllowed
+       p.2.all allowed.contains && allowed.all p.2.contains) && decide (minYear = 1970)) = true := by decide
 end Rp2.Tables
